@@ -98,11 +98,13 @@ def check(repo: Repo, rep: Report) -> None:
     # E5
     loops = [s for s in sites(run) if isinstance(s.node, ast.While) and not s.ctx.loops]
     rep.require(len(loops) == 1, "outer loop in run")
-    body = loops[0].node.body
+    from ..astutil import effective
+    body = effective(loops[0].node.body)
     first = body[0] if body else None
-    ok = isinstance(first, ast.With) and u(first.items[0].context_expr) == f"self.{E_CV}" and first.body \
-        and isinstance(first.body[0], ast.If) and u(first.body[0].test) == f"self.{E_DISP}" \
-        and any(isinstance(x, ast.Return) for x in first.body[0].body)
+    fb = effective(first.body) if isinstance(first, ast.With) else []
+    ok = isinstance(first, ast.With) and u(first.items[0].context_expr) == f"self.{E_CV}" and fb \
+        and isinstance(fb[0], ast.If) and u(fb[0].test) == f"self.{E_DISP}" \
+        and any(isinstance(x, ast.Return) for x in fb[0].body)
     rep.ob("E5-disposed-first", run, f"while True: with condition: if {E_DISP}: return", bool(ok),
            "the loop does not test the disposed flag first thing in every iteration under the condition: items scheduled "
            "or pending after dispose() could still run")
